@@ -169,6 +169,27 @@ func solveOne(s *Script, o *Obligation, file string, timeoutS int, crossCheck bo
 			}
 		}
 		cancel()
+		if r.verdict == "unknown" {
+			// stage 3: a time-out under machine load is not a refutation; race once more with three times the budget
+			// before the obligation is reported as undischarged (a longer budget can only turn 'unknown' into a verdict)
+			cctx2, cancel2 := context.WithCancel(ctx)
+			ch2 := make(chan solveResult, len(Solvers))
+			for _, cfg := range Solvers {
+				go func(cfg SolverCfg) { ch2 <- runSolver(cctx2, cfg, file, 3*timeoutS) }(cfg)
+			}
+			for range Solvers {
+				rr := <-ch2
+				results = append(results, rr)
+				if rr.verdict == "error" {
+					continue
+				}
+				if rr.verdict != "unknown" {
+					r = rr
+					break
+				}
+			}
+			cancel2()
+		}
 	}
 	o.Solver, o.TimeS = r.solver, 0
 	for _, x := range results {
